@@ -3,8 +3,14 @@
    and a float appears out of exact inputs exactly where two ints are divided (int / int is true division) or an int
    is raised to a negative power.  `evalT` computes the value (as `eval` does) together with the Python type class of
    the result:  TInt (int, numpy integer, bool), TTime (TimeType / Rational constant), TFloat (float, or a TimeType
-   built from a float: "inexact").  Formulas with decimal float literals are outside (Const has no float form; the
-   harness never sends them here).  Definitions only. *)
+   built from a float: "inexact").
+   Round 3: (a) the environment carries the MODE `tex` -- true: the exact-rational printer (Rational -> TimeType),
+   false: the plain numpy printer of evaluate_in_scope (a non-integer Rational is printed p/q = Python int / int, a
+   float); (b) a Piecewise is numpy.select(..., default=nan): the float default promotes the result to float64 (with a
+   TimeType among the choices the array is an object array and the selected element comes back unchanged, or not at
+   all: finding timetype-piecewise) -- `Ite` has type TFloat, the class without any exactness claim;
+   (c) a decimal float literal is a float INPUT: the correspondence binds it to a reserved variable of type TFloat
+   (theorem C12_literal_as_input: this does not change the value).  Definitions only. *)
 From Coq Require Import ZArith QArith Qround Qabs List Bool NArith.
 Require Import QV.C12.Model.
 Import ListNotations.
@@ -20,14 +26,17 @@ Definition tjoin (a b : ty) : ty :=
   | TInt, TInt => TInt
   end.
 
-Record tenv := { tsc : N -> option (Q * ty); tvc : N -> option (list Q * ty); tfn : N -> Q -> option Q }.
+Record tenv := { tsc : N -> option (Q * ty); tvc : N -> option (list Q * ty); tfn : N -> Q -> option Q;
+                 tex : bool }.
 Definition set_tsc (r : tenv) (i : N) (v : Q * ty) : tenv :=
-  {| tsc := fun x => if N.eqb x i then Some v else tsc r x; tvc := tvc r; tfn := tfn r |}.
+  {| tsc := fun x => if N.eqb x i then Some v else tsc r x; tvc := tvc r; tfn := tfn r; tex := tex r |}.
 Definition erase (r : tenv) : env :=
   {| sc := fun x => option_map fst (tsc r x); vc := fun x => option_map fst (tvc r x); fn := tfn r |}.
 
-(* an integer-valued Rational is a sympy Integer -> Python int; any other Rational -> TimeType.from_fraction *)
-Definition const_ty (q : Q) : ty := match as_int q with Some _ => TInt | None => TTime end.
+(* an integer-valued Rational is a sympy Integer -> Python int; any other Rational -> TimeType.from_fraction in the
+   exact mode, the Python quotient p/q (a float) in the numeric mode *)
+Definition const_ty (ex : bool) (q : Q) : ty :=
+  match as_int q with Some _ => TInt | None => if ex then TTime else TFloat end.
 
 Definition un_ty (o : unop) (t : ty) : ty :=
   match o with
@@ -55,13 +64,14 @@ Fixpoint sumT_range (f : Z -> result (Q * ty)) (lo : Z) (n : nat) : result (Q * 
 
 Fixpoint evalT (r : tenv) (e : expr) {struct e} : result (Q * ty) :=
   match e with
-  | Const q => Ok (q, const_ty q)
+  | Const q => Ok (q, const_ty (tex r) q)
   | Nan => Err ENan
   | Var x => match tsc r x with Some v => Ok v | None => Err EUnbound end
   | Un o a => bind (evalT r a) (fun p => bind (un_eval (tfn r) o (fst p)) (fun v => Ok (v, un_ty o (snd p))))
   | Bin o a b => bind (evalT r a) (fun p => bind (evalT r b) (fun q =>
                    bind (bin_eval o (fst p) (fst q)) (fun v => Ok (v, bin_ty o p q))))
-  | Ite c a b => bind (evalT r c) (fun t => if truthy (fst t) then evalT r a else evalT r b)
+  | Ite c a b =>       (* numpy.select(conds, choices, default=nan): float64 *)
+      bind (evalT r c) (fun t => bind (if truthy (fst t) then evalT r a else evalT r b) (fun p => Ok (fst p, TFloat)))
   | Sum i lo hi body =>
       bind (evalT r lo) (fun l => bind (evalT r hi) (fun h =>
         match as_int (fst l), as_int (fst h) with
@@ -88,30 +98,45 @@ Fixpoint evalT (r : tenv) (e : expr) {struct e} : result (Q * ty) :=
 
 (* ---- static over-approximation of the result type and the executable guard -------------------------------------- *)
 (* s x / sv x: the type classes a scalar name / an indexed base may have *)
-Fixpoint poss (s sv : N -> list ty) (e : expr) : list ty :=
+Fixpoint poss (ex : bool) (s sv : N -> list ty) (e : expr) : list ty :=
   match e with
-  | Const q => [const_ty q]
+  | Const q => [const_ty ex q]
   | Nan => []
   | Var x => s x
-  | Un o a => map (un_ty o) (poss s sv a)
+  | Un o a => map (un_ty o) (poss ex s sv a)
   | Bin o a b =>
-      let A := poss s sv a in let B := poss s sv b in
+      let A := poss ex s sv a in let B := poss ex s sv b in
       match o with
       | BAdd | BSub | BMul | BMin | BMax => A ++ B
       | BDiv => (if existsb is_int A && existsb is_int B then [TFloat] else []) ++ A ++ B
       | BFloorDiv | BCmp _ | BAnd | BOr => [TInt]
       end
-  | Ite _ a b => poss s sv a ++ poss s sv b
-  | Sum i _ _ body => TInt :: poss (fun x => if N.eqb x i then [TInt] else s x) sv body
+  | Ite _ _ _ => [TFloat]
+  | Sum i _ _ body => TInt :: poss ex (fun x => if N.eqb x i then [TInt] else s x) sv body
   | Idx x _ => sv x
-  | IBc a _ _ => poss s sv a
+  | IBc a _ _ => poss ex s sv a
   end.
 
-(* guard_C12_exact_int_div: no division of two ints / negative power of an int can reach the result *)
-Definition exact_guard (s sv : N -> list ty) (e : expr) : bool := forallb (fun t => negb (is_float t)) (poss s sv e).
+(* guard_C12_exact_int_div: in the exact mode no division of two ints / negative power of an int / Piecewise can reach
+   the result *)
+Definition exact_guard (s sv : N -> list ty) (e : expr) : bool :=
+  forallb (fun t => negb (is_float t)) (poss true s sv e).
 
 (* association lists (generated cases) *)
-Definition mk_tenv (s : list (N * (Q * ty))) (v : list (N * (list Q * ty))) (t : list (N * Q * Q)) : tenv :=
-  {| tsc := lookup s; tvc := lookup v; tfn := fn_lookup t |}.
+Definition mk_tenv (ex : bool) (s : list (N * (Q * ty))) (v : list (N * (list Q * ty))) (t : list (N * Q * Q)) : tenv :=
+  {| tsc := lookup s; tvc := lookup v; tfn := fn_lookup t; tex := ex |}.
+
+(* observed Python type class against the model's.  TInt and TTime are claims (the result IS an int / a TimeType);
+   TFloat is the class about which nothing exact is claimed: a float, a TimeType built from a float, or -- Min / Max /
+   Piecewise over an object array, which numpy builds as soon as a TimeType is among the candidates -- the selected
+   element unchanged (possibly an int) *)
+Definition ty_agree (t : ty) (o : option ty) : bool :=
+  match o with
+  | None => true
+  | Some c => match t, c with
+              | TInt, TInt | TTime, TTime | TFloat, _ => true
+              | _, _ => false
+              end
+  end.
 Definition exact_inputs (s : list (N * (Q * ty))) (v : list (N * (list Q * ty))) : bool :=
   forallb (fun p => negb (is_float (snd (snd p)))) s && forallb (fun p => negb (is_float (snd (snd p)))) v.
